@@ -97,7 +97,7 @@ func InstanceLoadForm(obj Instance) (form List) {
 						Symbol(name),
 					},
 				},
-				iv, // TBD handle more complex values
+				elementLoadForm(iv), // the form is evaluated when loaded
 			},
 		)
 	}
